@@ -158,6 +158,11 @@ def check_layout(res, L, rng, tag, tier, jit, count):
             # the generated multivector happens to be singular: inv() must raise
             res.case(('singular-generated', tag, str(ex)), nontrivial=nt)
             res.count('singular_generated')
+            if any(Fraction(float(x)) != x for x in ex):
+                # the rational multivector is singular but its floating-point image (coefficients such as 3/10) is a different, generally
+                # invertible, multivector: the property says nothing about it
+                res.count('singular_generated_inexact_skipped')
+                continue
             try:
                 X = Mf.inv()
                 # an exactly singular input may be returned with a huge value only if rounding hid the zero; treat as violation when X*M is not 1
@@ -300,7 +305,13 @@ def run_job(job, tier, seed):
         cases += [dict(sig=gen.random_signature(rng, 3)) for _ in range(6 if tier == 'quick' else 20)]
         cases += [dict(sig=gen.random_signature(rng, 4)) for _ in range(5 if tier == 'quick' else 20)]
         cases += [dict(sig=gen.random_signature(rng, 5)) for _ in range(3 if tier == 'quick' else 10)]
-        cases += [dict(sig=gen.random_signature(rng, 6, k)) for k in (['nondeg'] if tier == 'quick' else ['nondeg', 'mixed', 'degenerate', 'pos'])]
+        cases += [dict(sig=gen.random_signature(rng, 6, k)) for k in (['nondeg', 'degenerate'] if tier == 'quick' else ['nondeg', 'mixed', 'degenerate', 'pos'])]
+        # twin layouts: the same signature stored in two blade orders (the layouts compare equal), used one after the other
+        for n_t in ((3, 4) if tier == 'quick' else (2, 3, 4, 5)):
+            s_t = gen.random_signature(rng, n_t, 'nondeg')
+            perm = gen.shortlex(n_t)[1:]
+            rng.shuffle(perm)
+            cases += [dict(sig=s_t), dict(sig=s_t, order=list(range(2 ** n_t))), dict(sig=s_t, order=[0] + [int(x) for x in perm])]
         if tier == 'thorough':
             cases += [dict(sig=gen.random_signature(rng, 7, 'nondeg')), dict(sig=[1] * 8)]
         layouts = common.build_layouts(res, cases)
